@@ -622,6 +622,9 @@ def map_chain(v, case, p0, env, inputs, ish, outs, chain, scal, rng, scratch, ta
                 elif kind == "split":
                     parts = q.split_disconnected()
                     q = next(pp for pp in parts if names[case["funcs"][-1]["outs"][0]] in pp.output_to_func)
+                    # the independent pipeline that join / | had added is in another part now
+                    extra_inputs.clear()
+                    names = {n_: c_ for n_, c_ in names.items() if not n_.startswith(("zin", "zout"))}
                 elif kind == "nest":
                     # the first two functions of the chain become one NestedPipeFunc (their MapSpecs are combined)
                     q.nest_funcs({names[case["funcs"][0]["outs"][0]], names[case["funcs"][1]["outs"][0]]})
